@@ -44,7 +44,7 @@ func migLoadTables() error {
 		return err
 	}
 	out := map[string]map[string]*migRuleTable{}
-	for vs, v := range map[string]bufconfig.FileVersion{"v1beta1": bufconfig.FileVersionV1Beta1, "v1": bufconfig.FileVersionV1} {
+	for vs, v := range map[string]bufconfig.FileVersion{"v1beta1": bufconfig.FileVersionV1Beta1, "v1": bufconfig.FileVersionV1, "v2": bufconfig.FileVersionV2} {
 		out[vs] = map[string]*migRuleTable{}
 		for ts, rt := range map[string]check.RuleType{"lint": check.RuleTypeLint, "breaking": check.RuleTypeBreaking} {
 			rules, err := client.AllRules(ctx, rt, v)
@@ -354,7 +354,7 @@ func migGenWS(t *rapid.T) *migWS {
 		if migChance(t, "v1beta1", 42) {
 			m.Version = "v1beta1"
 		}
-		if ws.Layout == "work" && migChance(t, "nobufyaml", 6) {
+		if ws.Layout == "work" && migChance(t, "nobufyaml", 4) {
 			m.NoBufYAML = true
 			m.Version = "v1"
 		}
@@ -671,7 +671,11 @@ func migGenPaths(t *rapid.T, label string, cands []string, max int) []string {
 
 func migGenCheckCfg(t *rapid.T, m *migMod, kind string, mixed bool) migCheckCfg {
 	var c migCheckCfg
-	if !migChance(t, kind+"_present", 78) {
+	presentPct := 78
+	if kind == "lint" && m.Version == "v1beta1" {
+		presentPct = 92
+	}
+	if !migChance(t, kind+"_present", presentPct) {
 		return c
 	}
 	c.Present = true
@@ -700,22 +704,52 @@ func migGenCheckCfg(t *rapid.T, m *migMod, kind string, mixed bool) migCheckCfg 
 		}
 		return out
 	}
-	pickID := func(label string, common bool) string {
+	// Ids that run into an already known migration defect are kept, but at a low rate, so that the
+	// search is not starved: ids that do not exist in v2 (deprecated-and-removed or v1beta1-only) and,
+	// in a v1beta1 `use` list, categories that contain the v1beta1-only rule FIELD_NO_DESCRIPTOR.
+	v2 := migTables["v2"][kind]
+	risky := func(id string, inUse bool) bool {
+		if !v2.has(id) {
+			return true
+		}
+		if inUse && kind == "lint" && m.Version == "v1beta1" {
+			for _, r := range tb.catRules[id] {
+				if r == "FIELD_NO_DESCRIPTOR" {
+					return true
+				}
+			}
+		}
+		return false
+	}
+	pickID := func(label string, common bool, inUse bool) string {
+		var from []string
 		switch k := migRange(t, label+"_src", 0, 9); {
 		case k < 6:
-			return migPick(t, label+"_hot", filter(hot, common))
+			from = filter(hot, common)
 		case k < 8:
-			return migPick(t, label+"_cat", filter(tb.cats, common))
+			from = filter(tb.cats, common)
 		default:
-			return migPick(t, label+"_any", filter(tb.ids, common))
+			from = filter(tb.ids, common)
 		}
+		if !migChance(t, label+"_risky", 10) {
+			var safe []string
+			for _, id := range from {
+				if !risky(id, inUse) {
+					safe = append(safe, id)
+				}
+			}
+			if len(safe) > 0 {
+				from = safe
+			}
+		}
+		return migPick(t, label+"_id", from)
 	}
-	pickIDs := func(label string, max int, common bool) []string {
+	pickIDs := func(label string, max int, common bool, inUse bool) []string {
 		n := migRange(t, label+"_n", 1, max)
 		seen := map[string]bool{}
 		var out []string
 		for i := 0; i < n; i++ {
-			id := pickID(label, common)
+			id := pickID(label, common, inUse)
 			if !seen[id] {
 				seen[id] = true
 				out = append(out, id)
@@ -723,11 +757,16 @@ func migGenCheckCfg(t *rapid.T, m *migMod, kind string, mixed bool) migCheckCfg 
 		}
 		return out
 	}
-	if migChance(t, kind+"_use", 60) {
-		c.Use = pickIDs(kind+"_useid", 3, mixed)
+	usePct := 60
+	if kind == "lint" && m.Version == "v1beta1" {
+		// the default v1beta1 lint rule set contains FIELD_NO_DESCRIPTOR (known defect): mostly explicit lists
+		usePct = 85
+	}
+	if migChance(t, kind+"_use", usePct) {
+		c.Use = pickIDs(kind+"_useid", 3, mixed, true)
 	}
 	if migChance(t, kind+"_except", 45) {
-		c.Except = pickIDs(kind+"_exceptid", 3, false)
+		c.Except = pickIDs(kind+"_exceptid", 3, false, false)
 	}
 	if !tb.effectiveNonEmpty(c.Use, c.Except) {
 		c.Except = nil
@@ -737,7 +776,7 @@ func migGenCheckCfg(t *rapid.T, m *migMod, kind string, mixed bool) migCheckCfg 
 	}
 	cands := migIgnoreCandidates(m)
 	if migChance(t, kind+"_ignore", 38) {
-		if migChance(t, kind+"_ignoredot", 8) {
+		if migChance(t, kind+"_ignoredot", 4) {
 			c.Ignore = []string{"."}
 		} else {
 			c.Ignore = migGenPaths(t, kind+"_ignorepath", cands, 2)
@@ -747,7 +786,7 @@ func migGenCheckCfg(t *rapid.T, m *migMod, kind string, mixed bool) migCheckCfg 
 		c.IgnoreOnly = map[string][]string{}
 		n := migRange(t, kind+"_ion", 1, 2)
 		for i := 0; i < n; i++ {
-			c.IgnoreOnly[pickID(kind+"_ioid", false)] = migGenPaths(t, kind+"_iopath", cands, 2)
+			c.IgnoreOnly[pickID(kind+"_ioid", false, false)] = migGenPaths(t, kind+"_iopath", cands, 2)
 		}
 	}
 	if kind == "lint" {
